@@ -36,7 +36,7 @@ def fold_engine(prog, unit):
         return r.startswith(("scpi::parser::tokenizer::", "scpi::option::ScpiEnum::")) or n.startswith(("scpi::parser::tokenizer::", "scpi::option::ScpiEnum::")) or "as scpi::option::ScpiEnum>" in r or "as option::ScpiEnum>" in r
     # (private helpers of the response module are analysed in place)
     from . import dispatch as D_
-    _resp = D_.inline_inherent(("scpi::parser::response::", "scpi::parser::format::"))
+    _resp = D_.inline_inherent(("scpi::parser::response::", "scpi::parser::format::", "scpi::option::"))
     return fdai.Engine(prog, unit, inline=lambda n, r: inl(n, r) or _resp(n, r), models=M.FOLD_MODELS, loop_limit=60, max_depth=12)
 
 
